@@ -272,6 +272,10 @@ SUBST_EXTRA = [
     ("exists X$i (t(X, X$i))", "X", "X$i"), ("exists N$i (N$i > I$i and p(N$i + I$i))", "I$i", "N$i * 2"),
     ("exists S$s (t(S$s, X$s))", "X$s", "S$s"), ("exists Y (Y = X) and exists Y1 (t(Y1, X))", "X", "Y"),
     ("exists Y (t(X, Y) and exists Y1 (t(Y1, Y) and exists Y2 (t(Y2, X))))", "X", "Y"),
+    # the same name at another sort must stay untouched; sibling binders that differ in a trailing index
+    ("t(X$i + 1, X)", "X", "5"), ("t(N$i, N)", "N", "M$i"), ("p(X$s) and q(X)", "X", "a"), ("exists Y (t(X, Y) and p(X$i))", "X", "Y$i + 1"),
+    ("forall Y$i Y1$i (t(X$i, Y$i) and p(Y1$i))", "X$i", "Y$i + Y1$i"), ("forall Y Y1 (t(X, Y) and p(Y1))", "X", "Y"),
+    ("exists Y Y1 Y2 (t(X, Y) and t(Y1, Y2))", "X", "Y1"), ("forall X$i (p(X$i) -> q(X))", "X", "X$i"), ("p(X$i) and p(X$s) and p(X)", "X$i", "X$i + 1"),
 ]
 
 
@@ -301,6 +305,8 @@ SIMP_EXTRA = [
     "exists Y (exists N$i (N$i = Y and p(N$i)) and exists Y (q(Y)))",
     "forall Z (exists I$i Z (I$i = Z and p(Z)) -> r)", "exists Z (exists I$i (Z = I$i and p(I$i)) and not q(Z))",
     "exists I$i S$s (I$i = X and S$s = X and p(S$s))", "exists S$s I$i (S$s = X and I$i = X and p(I$i))", "exists I$i S$s (I$i = X and S$s = X)",
+    "forall X X1 (t(X, X1) or exists X q(X))", "forall X X1 (exists X (q(X)) or t(X, X1))", "forall X (p(X) or exists X (q(X)) or exists X (hp(X)))",
+    "forall V1 (exists X (V1 = X + 1 and q(X)) or exists X (V1 = X + 2 and p(X)) or exists X (V1 = X + 3 and hp(X)))",
     "not p(1) -> p(1)", "p(1) -> not p(1)", "not r -> r", "(not p(X) -> p(X)) -> q(X)", "forall X (not p(X) -> p(X))", "not not r -> r", "r or not r",
 ]
 
